@@ -23,6 +23,8 @@ def run(ctx):
     R4 = ctx.rule('C03.R4', 'every (string literal, explicit length) pair passed to a buffer / write has the literal\'s length')
     R5 = ctx.rule('C03.R5', 'chunked transfer: size line, data, CRLF in that order; terminating chunk only when completed; header says chunked exactly when chunking')
     R6 = ctx.rule('C03.R6', 'every output-side per-request field is reset at the request boundary (or survives by design)')
+    R7 = ctx.rule('C03.R7', 'page copy for the cache: the tee buffer is spliced between the (optional) gzip stage and the device, forwards exactly the bytes it holds, and keeps them')
+    R10 = ctx.rule('C03.R10', 'both header formatters emit every stored header and every added header line, each as `name: value CRLF`, and nothing is skipped except the Status line that was already written')
     R8 = ctx.rule('C03.R8', 'after a short write exactly the unsent tail of the buffer that was written is re-queued; pending output is dropped only when everything was sent')
 
     # ---------------- R1
@@ -220,6 +222,122 @@ def run(ctx):
     # ---------------- R6
     C01.reset_rule(ctx, P, R6, 'output')
     ctx.floor(R6, 8)
+
+    # ---------------- R7 cache tee
+    ro = P.fn('cppcms::http::response::out')
+    opn = [i for i in q.field_calls(ro, '_data::cached', 'open')]
+    inst = [i for i in ro.calls() if q.short_of(ro.callee(i)) == 'rdbuf' and ro.args(i) and any(model.strip_targs(r).endswith('_data::cached') for r in ro.subtree_refs(ro.args(i)[0]))]
+    pf = [i for i in q.field_calls(ro, '_data::buffers', 'push_front') if any(model.strip_targs(r).endswith('_data::cached') for r in ro.subtree_refs(i))]
+    g_copy = ro.gate_edges(lambda atom, pol: model.strip_targs(ro.ref_of(atom) or '').endswith('response::copy_to_cache_') and pol is True)
+    ok = len(opn) == 1 and len(inst) == 1 and len(pf) == 1 and all(ro.only_through(x, g_copy) for x in opn + inst + pf)
+    if ok:
+        # the tee forwards to whatever the stream wrote to before it was spliced in
+        ok = any(q.short_of(ro.callee(j)) == 'rdbuf' and not ro.args(j) for j in ro.calls(ro.args(opn[0])[0])) and q.before(ro, opn[0], inst[0])
+    ctx.check(ok, R7, 'response::out:tee-spliced-in-front-of-previous-buffer', 'the cache copy buffer is not opened on the previous stream buffer before replacing it', ro.where)
+    zo = [i for i in q.field_calls(ro, '_data::zbuf', 'open')]
+    if zo:
+        okz = len(zo) == 1 and any(q.short_of(ro.callee(j)) == 'front' and (q.obj_field(ro, j) or '').endswith('_data::buffers') for j in ro.calls(ro.args(zo[0])[0]))
+        # on the path where both are active the tee was pushed first, so the compressor writes into the tee: the copy equals what is sent
+        okz = okz and bool(pf) and not q.reaches(ro, zo[0], pf[0])
+        ctx.check(okz, R7, 'response::out:gzip-writes-into-the-tee', 'with gzip the cache copy is not taken from the bytes that are sent', ro.loc(zo[0]))
+    cb = [f for f in P.fns.values() if (f.brecord or '').endswith('copy_buf') and f.short == 'overflow']
+    ctx.require(len(cb) == 1, 'C03.R7: copy_buf::overflow not found')
+    cb = cb[0]
+    sp = [i for i in cb.calls() if q.short_of(cb.callee(i)) == 'sputn' and (q.obj_field(cb, i) or cb.ref_of(cb.obj(i)) or '').endswith('out_')]
+    okf = len(sp) == 1
+    if okf:
+        a0, a1 = cb.args(sp[0])
+        okf = [q.short_of(cb.callee(j)) for j in cb.calls(a0)] == ['pbase']
+        nv = cb.ref_of(a1)
+        defs = [v for (_, v) in cb.defs_of_var(nv)] if nv else []
+        lens = defs if defs else [a1]
+        okf = okf and len(lens) == 1 and lens[0] is not None and sorted(q.short_of(cb.callee(j)) for j in cb.calls(lens[0])) == ['pbase', 'pptr']
+        # a short forward is an error
+        g_short = cb.gate_edges(lambda atom, pol: cb.N(atom)['k'] == 'BinaryOperator' and cb.N(atom).get('op') in ('!=', '==') and sp[0] in set(cb.walk(atom)) and pol is (cb.N(atom)['op'] == '!='))
+        errw = [w for w in cb.all_nodes() if cb.N(w)['k'] == 'BinaryOperator' and cb.N(w).get('op') == '=' and cb.const_value(cb.N(w)['ch'][1]) == -1]
+        okf = okf and bool(g_short) and any(cb.only_through(w, g_short) for w in errw)
+    ctx.check(okf, R7, 'copy_buf::overflow:forwards-[pbase,pptr)', 'the tee does not forward exactly its pending bytes / ignores a short forward', cb.where)
+    # the put area only ever moves forward inside buffer_ (bytes already copied stay in place); it is reset only by getstr
+    setps = [(f, i) for f in P.fns.values() if (f.brecord or '').endswith('copy_buf') for i in f.calls() if q.short_of(f.callee(i)) == 'setp']
+    okk = len(setps) >= 4
+    for (f, i) in setps:
+        a = f.args(i)
+        zero = f.const_value(a[0]) == 0 and f.const_value(a[1]) == 0
+        if zero:
+            okk = okk and f.short == 'getstr'
+        elif f.short == 'overflow':
+            cont = [q.short_of(f.callee(j)) for j in f.calls(a[0])] == ['pptr']
+            idx = [f.N(j)['ch'][2] for j in f.walk(a[0]) if f.N(j)['k'] == 'CXXOperatorCallExpr' and f.N(j).get('op') == '[]' and len(f.N(j)['ch']) == 3]
+            fresh = grow = False
+            if len(idx) == 1:
+                if f.const_value(idx[0]) == 0:
+                    # starting at the front of the buffer is only right while nothing was written yet (pptr()==0)
+                    g0 = f.gate_edges(lambda atom, pol, f=f: f.N(atom)['k'] == 'BinaryOperator' and f.N(atom).get('op') == '==' and [q.short_of(f.callee(j)) for j in f.calls(atom)] == ['pptr'] and f.const_value(f.N(atom)['ch'][1]) == 0 and pol is True)
+                    fresh = bool(g0) and f.only_through(i, g0)
+                else:
+                    v = f.ref_of(idx[0])
+                    ds = f.defs_of_var(v) if v else []
+                    rs = [j for j in q.field_calls(f, 'copy_buf::buffer_', 'resize')]
+                    grow = len(ds) == 1 and ds[0][1] is not None and [q.short_of(f.callee(j)) for j in f.calls(ds[0][1])] == ['size'] and any(q.before(f, ds[0][0], r) and q.before(f, r, i) for r in rs)
+            okk = okk and (fresh or grow or cont)
+    ctx.check(okk, R7, 'copy_buf:put-area-only-advances', 'the tee can rewind its put area over bytes it already copied', cb.where)
+    gs = [f for f in P.fns.values() if (f.brecord or '').endswith('copy_buf') and f.short == 'getstr']
+    okg = bool(gs)
+    for f in gs:
+        # n = buffer_.size() - (epptr() - pptr())
+        dn = [v for i in f.all_nodes() if f.N(i)['k'] == 'DeclStmt' for d in f.N(i)['decls'] if d.get('init') is not None for v in [d['init']] if d['name'] == 'n' or any(q.short_of(f.callee(j)) == 'epptr' for j in f.calls(d['init']))]
+        okg = okg and len(dn) == 1 and sorted(q.short_of(f.callee(j)) for j in f.calls(dn[0])) == ['epptr', 'pptr', 'size']
+    ctx.check(okg, R7, 'copy_buf::getstr:length-is-size-minus-free-space', 'the copied page length is not buffer size minus the unused put area', gs[0].where if gs else cb.where)
+    ctx.floor(R7, 4)
+
+    # ---------------- R10 header formatters
+    fmts = sorted([f for f in P.fns.values() if f.short in ('format_http_headers', 'format_cgi_headers') and (f.brecord or '').endswith('response_headers') and f.entry is not None], key=lambda g: g.id)
+    ctx.require(len(fmts) >= 2, 'C03.R10: response_headers formatters not instantiated (%d)' % len(fmts))
+    seen_f = set()
+    for f in fmts:
+        if f.short in seen_f:
+            continue
+        seen_f.add(f.short)
+        lps_ = q.loops(f)
+        over_h = [L for L in lps_ if any(model.strip_targs(r).endswith('response_headers::headers_') for r in f.subtree_refs(f.N(L).get('init', -1) if f.N(L).get('init', -1) is not None and f.N(L).get('init', -1) >= 0 else L))]
+        over_a = [L for L in lps_ if f.N(L)['k'] == 'CXXForRangeStmt' and any(model.strip_targs(r).endswith('response_headers::added_headers_') for r in f.subtree_refs(L))]
+        ok = len(over_h) == 1 and len(over_a) == 1
+        why = 'expected one loop over headers_ and one over added_headers_'
+        if ok:
+            L = over_h[0]
+            n = f.N(L)
+            begin = any(q.short_of(f.callee(j)) == 'begin' for j in f.calls(n['init']))
+            cond = f.strip(n['cond'])
+            ends = any(q.short_of(f.callee(j)) == 'end' for j in f.calls(n['init'])) or any(q.short_of(f.callee(j)) == 'end' for j in f.calls(cond))
+            ne = f.N(cond).get('op') == '!='
+            esc = [j for L2 in (over_h[0], over_a[0]) for j in f.walk(f.N(L2)['body']) if f.N(j)['k'] in ('BreakStmt', 'ContinueStmt', 'ReturnStmt', 'GotoStmt')]
+            ok = begin and ends and ne and not esc
+            why = 'the loop over headers_ does not run from begin() to end() without leaving early'
+            if ok:
+                lits = sorted(set(f.N(j).get('s') for j in f.walk(f.N(L)['body']) if f.N(j)['k'] == 'StringLiteral'))
+                flds = sorted(set(model.strip_targs(f.N(j).get('ref', '')).rsplit('::', 1)[-1] for j in f.walk(f.N(L)['body']) if f.N(j)['k'] == 'MemberExpr' and 'pair' in f.N(j).get('ref', '')))
+                ok = lits == ['\r\n', ': '] and flds == ['first', 'second']
+                why = 'a stored header is not written as `name: value CRLF` (%s, %s)' % (lits, flds)
+            if ok:
+                # the only guard inside the loop compares the iterator with the Status entry
+                conds = [j for j in f.walk(f.N(L)['body']) if f.N(j)['k'] == 'IfStmt']
+                for j in conds:
+                    refs = [r for r in f.subtree_refs(f.N(j)['cond']) if r.startswith('v:')]
+                    stat = [r for r in refs if any(v is not None and any(f.N(x)['k'] == 'StringLiteral' and f.N(x).get('s') == 'Status' for x in f.walk(v)) for (_, v) in f.defs_of_var(r))]
+                    ok = ok and len(stat) == 1
+                    why = 'a header other than Status can be skipped'
+            if ok:
+                la = sorted(set(f.N(j).get('s') for j in f.walk(f.N(over_a[0])['body']) if f.N(j)['k'] == 'StringLiteral'))
+                ok = la == ['\r\n']
+                why = 'an added header line is not followed by CRLF only'
+        ctx.check(ok, R10, '%s:every-header-once' % f.short, why, f.where)
+        cmpl = q.param_by_index(f, len(f.params) - 1)
+        g_c = f.gate_edges(lambda atom, pol: f.ref_of(atom) == cmpl and pol is True)
+        tails = [j for j in f.all_nodes() if f.N(j)['k'] == 'StringLiteral' and f.N(j).get('s') == '\r\n' and not q.enclosing_loops(f, j) and f.point_of(f.enclosing(j, ('CXXOperatorCallExpr',)) or j)]
+        endw = [f.enclosing(j, ('CXXOperatorCallExpr',)) for j in tails]
+        endw = [w for w in endw if w is not None and f.only_through(w, g_c)]
+        ctx.check(len(endw) == 1, R10, '%s:blank-line-only-when-complete' % f.short, 'the terminating blank line is not written exactly under `complete`', f.where)
+    ctx.floor(R10, 4)
 
     # ---------------- R8
     nb = P.fn(CONN + '::nonblocking_write')
